@@ -57,6 +57,17 @@ def getCollectionValue(collection, what):
         )
 
 
+def toIndex(value, pos):
+    try:
+        return int(value.value)
+    except (AttributeError, OverflowError, TypeError, ValueError):
+        raise CklRuntimeError(
+            ValueString("ERROR"),
+            f"Cannot use {value.type()} value as index",
+            pos,
+        )
+
+
 def getFuncallString(fn, args):
     return f"{fn.name}({args.toStringAbbrev()})"
 
@@ -485,7 +496,7 @@ class NodeDeref:
                     self.pos,
                 )
             s = value.value
-            i = int(idx.value)
+            i = toIndex(idx, self.pos)
             if i < 0:
                 i = i + len(s)
             if i < 0 or i >= len(s):
@@ -502,7 +513,7 @@ class NodeDeref:
                     self.pos,
                 )
             lst = value.value
-            i = int(idx.value)
+            i = toIndex(idx, self.pos)
             if i < 0:
                 i = i + len(lst)
             if i < 0 or i >= len(lst):
@@ -568,19 +579,25 @@ class NodeDerefAssign:
 
         if container.isString():
             s = container.value
-            i = int(idx.value)
+            i = toIndex(idx, self.pos)
             if i < 0:
                 i = i + len(s)
             if i < 0 or i >= len(s):
                 raise CklRuntimeError(
                     ValueString("ERROR"), f"Index out of bounds {i}", self.pos
                 )
+            if not value.isString():
+                raise CklRuntimeError(
+                    ValueString("ERROR"),
+                    f"Cannot assign {value.type()} to a string position",
+                    self.pos,
+                )
             container.value = s[0:i] + value.value + s[i+1:]
             return container
 
         if container.isList():
             lst = container.value
-            i = int(idx.value)
+            i = toIndex(idx, self.pos)
             if i < 0:
                 i = i + len(lst)
             if i < 0 or i >= len(lst):
@@ -697,8 +714,8 @@ class NodeDerefSlice:
 
         if value.isString():
             s = value.value
-            start = int(start.value)
-            end = int(end.value) if end else len(s)
+            start = toIndex(start, self.pos)
+            end = toIndex(end, self.pos) if end else len(s)
             if start < 0:
                 start += len(s)
             if end < 0:
@@ -713,8 +730,8 @@ class NodeDerefSlice:
 
         if value.isList():
             lst = value.value
-            start = int(start.value)
-            end = int(end.value) if end else len(lst)
+            start = toIndex(start, self.pos)
+            end = toIndex(end, self.pos) if end else len(lst)
             if start < 0:
                 start += len(lst)
             if end < 0:
